@@ -46,7 +46,8 @@ def reduce_secrets(tier):
 
 def bounds(tier):
     return {"secrets_per_op": "256 single-bit scalars for X25519, 32/16 single-bit for the others, every mismatch position" if tier == "thorough"
-            else "00.., FF.., 4 single-bit, 1 pattern; 4 mismatch positions", "monitor": "valgrind lackey" + (" + ptrace single-step cross-check" if tier == "thorough" else "")}
+            else "00.., FF.., 4 single-bit, 1 pattern; 4 mismatch positions", "monitor": "valgrind lackey" + (" + ptrace single-step cross-check" if tier == "thorough" else ""),
+            "victims": ["ctvictim", "ctvictim32 (curve operations)"], "reduce_secrets": len(reduce_secrets(tier))}
 
 
 def bit(n, i):
